@@ -11,6 +11,7 @@ type StressOpt struct {
 	PanicPct   int  // share of panicking tasks
 	Observers  int  // goroutines polling Status()
 	SleepTasks bool // tasks that stay a while in Start() (drives the concurrency level up)
+	Kinds      bool // non-panicking tasks are pushed as values of different dynamic types (func adapter, structs with slice / map)
 	CancelMode int  // 0 random, 1 after everything accepted has run (progress is then checked), 2 at a random moment
 }
 
@@ -58,6 +59,9 @@ func (en *Engine) Stress(n, q int, o StressOpt, idx int) {
 			default:
 				t = r.NewTask(false, 0, false)
 				t.spin = 1 + rng.Intn(20)
+			}
+			if o.Kinds && t.pv < 0 {
+				t.Wrap(IdentityKinds[rng.Intn(len(IdentityKinds))])
 			}
 			l := lane0
 			if !oneLane {
@@ -131,7 +135,7 @@ func (en *Engine) Stress(n, q int, o StressOpt, idx int) {
 			}
 			return true
 		}) {
-			r.Violation("progress: an accepted task was not started within %v although the context is live and every task returns", LiveBound)
+			r.Violation("progress: an accepted task (kinds not started: %s) was not started within %v although the context is live and every task returns", r.unstartedKinds(), LiveBound)
 		} else if last, ok := r.PendingSettles(0, LiveBound); !ok {
 			r.Violation("pending-exact: lane at rest, PendingTask=%d want 0", last)
 		}
